@@ -87,10 +87,10 @@ def timer_worker(a):
         for rnd in range(a["rounds"]):
             base = 100 * rnd
             # clients finished in every possible way before their timer expires
-            for k in range(30):
+            for k in range(32):
                 cid = base + k + 1
                 s.do({"t": "announce", "id": cid, "ip": "10.1.2.%d" % (k + 1), "port": 2000 + k})
-                how = k % 6
+                how = k % 8
                 if how == 0:
                     s.do({"t": "disconnect", "id": cid})
                 elif how == 1:
@@ -108,6 +108,13 @@ def timer_worker(a):
                     st = s.open.get(cid)
                     if st and st["tag"]:
                         s.do({"t": "reply", "svc": "login.svc", "tag": st["tag"], "text": "NO denied"})
+                elif how in (6, 7):
+                    # soft-done with a query outstanding, then withdrawn / registered before any verdict:
+                    # its timer must die with it
+                    for ev in ({"t": "host", "id": cid, "name": "h"}, {"t": "ident", "id": cid, "name": "i"}, {"t": "nick", "id": cid, "name": "n"},
+                               {"t": "userinfo", "id": cid, "user": "u", "real": "r"}):
+                        s.do(ev)
+                    s.do({"t": "disconnect" if how == 6 else "registered", "id": cid})
                 else:
                     # left waiting on purpose: all data, query unanswered -> the real timer accepts it
                     for ev in ({"t": "host", "id": cid, "name": "h"}, {"t": "ident", "id": cid, "name": "i"}, {"t": "nick", "id": cid, "name": "n"},
@@ -121,7 +128,7 @@ def timer_worker(a):
     except Exception:
         s.kill()
         raise
-    r = prun.post(s, b, cfg, ["C10", "C01"], seed, do_shrink=False)
+    r = prun.post(s, b, cfg, a.get("props") or ["C10", "C01"], seed, do_shrink=False)
     r["stats"]["real_timer_rounds"] = a["rounds"]
     # timer-driven acceptances: clients of kind 5 must have been accepted by their timers
     timer_accepts = 0
